@@ -97,6 +97,45 @@ func runC06(c *Check) {
 	c.tagKeySplit(compileTag)
 	c.selectOnOriginalStack(byName)
 	c.rangeComparesScaledValues()
+	c.pseudoFramesBeforeFilters()
+}
+
+// pseudoFramesBeforeFilters (R3e): tagroot/tagleaf pseudo frames are ordinary frames for
+// the name filters, with and without relative_percentages: generateTagRootsLeaves
+// dominates every applyFocus call of generateRawReport.
+func (c *Check) pseudoFramesBeforeFilters() {
+	p := c.P
+	f := c.anchorFn("C06-R3", "internal/driver", "generateRawReport")
+	if f == nil {
+		return
+	}
+	var gen ssa.Instruction
+	var focus []ssa.Instruction
+	for _, b := range f.Blocks {
+		for _, ins := range b.Instrs {
+			if call, ok := ins.(*ssa.Call); ok && call.Call.StaticCallee() != nil {
+				switch call.Call.StaticCallee().Name() {
+				case "generateTagRootsLeaves":
+					gen = call
+				case "applyFocus":
+					focus = append(focus, call)
+				}
+			}
+		}
+	}
+	key := "order:generateTagRootsLeaves<applyFocus"
+	switch {
+	case gen == nil || len(focus) == 0:
+		c.undecided("C06-R3", key, p.relFile(f.Pos()), "generateRawReport no longer calls generateTagRootsLeaves and applyFocus")
+	default:
+		for _, fc := range focus {
+			if !instrDominates(gen, fc) {
+				c.bad("C06-R3", key, p.relFile(fc.Pos()), "applyFocus can run before the tagroot/tagleaf pseudo frames exist: focus, ignore, hide and show_from on such a frame then behave differently with and without relative_percentages")
+				return
+			}
+		}
+		c.ok("C06-R3", key, p.relFile(gen.Pos()), "pseudo frames from tagroot/tagleaf are created before any filter runs", "generateTagRootsLeaves dominates both applyFocus calls")
+	}
 }
 
 // selectOnOriginalStack (R5b): whether a sample is kept is decided on the stack it came
